@@ -143,7 +143,7 @@ pub fn def() -> PropDef {
         rule: "anf: cases = functions f of n in 0..=12 from the table generator (uniform, wordwise, sparse, symmetric, expression classes); Esop::from(&f).cubes(), read through pos_vars()/neg_vars(), must be exactly the set {S : a_S = 1} where a_S = XOR of f over all assignments contained in S is computed by the harness from the definition: no negative literal, no variable >= n, no repetition, nothing missing, nothing extra; by-value conversion equal; the same function built by another route gives an == Esop; Lut::from(&e) and Lut::from(e) give f back; value(m) = f(m); is_zero/is_one only for the constants. Exhaustive for all functions n<=3 (quick) / n<=4 (thorough). Non-trivial = the ANF has >= 3 monomials of degree >= 2. ops: cases = (n<=8, Esop description: zero/one/nth_var(_inv)/from_cubes of generated mixed-polarity cube lists with designed redundancy/from a Lut, ^ in 4 forms, ! in 2 forms, nested up to depth 3); value(m) on every assignment and Lut::from(&e) must equal the XOR / complement of the operand functions computed in the model; is_zero/is_one imply the constant. Non-trivial = an operator at the root and a non-constant function.",
         assumptions: vec!["cube order inside the Esop is not constrained", "Esop::from_cubes is given variables < n as it requires"],
         subs: vec![
-            Box::new(Sub { name: "anf", rule: "see property rule", strategy, cases: (100_000, 2_000_000), exhaustive: Some(enumerate), exhaustive_note: "all functions of n<=3 (quick) / n<=4 (thorough)", run }),
+            Box::new(Sub { name: "anf", rule: "see property rule", strategy, cases: (50_000, 1_000_000), exhaustive: Some(enumerate), exhaustive_note: "all functions of n<=3 (quick) / n<=4 (thorough)", run }),
             Box::new(Sub { name: "ops", rule: "see property rule", strategy: strategy_ops, cases: (100_000, 2_000_000), exhaustive: None, exhaustive_note: "", run: run_ops }),
         ],
     }
